@@ -293,10 +293,12 @@ def run_remote(ctx, idx, rng, tmp):
     import dclab
     from dclab.rtdc_dataset import fmt_http
     from vmon.gen import dataset as gd
-    from vmon.httpsrv import RangeServer, relax_timeouts
+    from vmon.httpsrv import RangeServer, FakeEndpoint, relax_timeouts, is_transport_timeout
     relax_timeouts()
     n = int(rng.integers(2, 8))
-    srv = RangeServer()
+    # mostly the socket-free transport; every fourth case goes over real loopback sockets
+    real_sockets = idx % 4 == 0
+    srv = RangeServer() if real_sockets else FakeEndpoint()
     try:
         def mk(path, j, basins):
             meta = gd.complete_meta(rng, {}, n)
@@ -323,17 +325,26 @@ def run_remote(ctx, idx, rng, tmp):
         r0 = tmp / "r0.rtdc"
         mk(r0, 0, b0)
         url0 = srv.put("/bucket/r0.rtdc", r0.read_bytes())
-        case = {"nested_http_basin": nested}
+        case = {"nested_http_basin": nested, "transport": "loopback sockets" if real_sockets
+                else "in-process"}
         Rec.opens.clear()
-        with warnings.catch_warnings():
-            warnings.simplefilter("ignore")
-            with fmt_http.RTDC_HTTP(url0) as ds:
-                f8, f9, f1 = "userdef8" in ds, "userdef9" in ds, "userdef1" in ds
-                fb = list(ds.features_basin)
-                if f1:
-                    v1 = np.asarray(ds["userdef1"][:])
-                    ctx.check("c14.data_provenance", np.array_equal(v1, 1000.0 + np.arange(n)),
-                              lambda: dict(case, got=v1), message="http basin data wrong")
+        try:
+            with warnings.catch_warnings():
+                warnings.simplefilter("ignore")
+                with fmt_http.RTDC_HTTP(url0) as ds:
+                    f8, f9, f1 = "userdef8" in ds, "userdef9" in ds, "userdef1" in ds
+                    fb = list(ds.features_basin)
+                    if f1:
+                        v1 = np.asarray(ds["userdef1"][:])
+                        ctx.check("c14.data_provenance",
+                                  np.array_equal(v1, 1000.0 + np.arange(n)),
+                                  lambda: dict(case, got=v1), message="http basin data wrong")
+        except Exception as exc:
+            if real_sockets and is_transport_timeout(exc):
+                # a starved/stuck loopback connection: this case is not judged
+                ctx.count("skipped_transport_timeout")
+                return case
+            raise
         local_opened = [o for o in Rec.opens if "canary" in o]
         ctx.check("c14.remote_isolation", not (f8 or f9 or local_opened),
                   lambda: dict(case, userdef8=f8, userdef9=f9, opened=local_opened,
